@@ -282,5 +282,22 @@ fn main() {
         }
         run.merge(t);
     }
+    // character sweep: every ASCII and 64 special non-ASCII characters inside the base
+    {
+        let chars: Vec<char> = mc_core::chars::all().into_iter().filter(|c| !"<>{}".contains(*c)).collect();
+        run.bound(format!("character sweep: {} characters in three base positions x 2 patterns x 7 names", chars.len()));
+        mc_core::par::par_items(&run, "C02 character sweep", &chars, |_, c, t| {
+            for base in [format!("p{}", c), format!("{}p", c), format!("{}", c)] {
+                let names: Vec<String> = vec![
+                    format!("{}-1", base), format!("{}-2", base), format!("{}-3", base), "p-1".to_string(), format!("{}x-2", base), base.clone(), format!("x{}-2", base),
+                ];
+                for pat in [format!("{}>=1", base), format!("{}>1<=2", base)] {
+                    t.states += 1;
+                    t.transitions += names.len() as u64;
+                    check_pattern(t, &pat, &names);
+                }
+            }
+        });
+    }
     run.finish();
 }
